@@ -209,7 +209,46 @@ def real_dumps(doc, a, form=0, explicit_defaults=False):
         kw.setdefault('include', set(kp.TokenCategory))
         kw.setdefault('exclude', set())
         kw.setdefault('encoding', kp.Encoding.normalizedKern)
-    return kp.dumps(doc, **kw)
+    # Three routes to the same export (the result must not depend on the route): kp.dumps (a new Exporter per call); ONE long-lived
+    # Exporter object per document with a new ExportOptions per call (the class API shown in the library's documentation); the same
+    # long-lived Exporter with ONE long-lived ExportOptions object that is updated in place between the calls.
+    c = export_context(doc)
+    c['n'] += 1
+    route = int(ROUTES[(form + c['n']) % len(ROUTES)])      # includes consecutive calls through the same long-lived objects
+    if route == 0:
+        return kp.dumps(doc, **kw)
+    from kernpy.core import generic
+    okw = dict(kw)
+    if 'encoding' in okw:
+        okw['kern_type'] = okw.pop('encoding')
+    options = generic.Generic.parse_options_to_ExportOptions(**okw)
+    if route == 2:
+        if c['options'] is None:
+            c['options'] = options
+        else:
+            for k, v in vars(options).items():
+                setattr(c['options'], k, v)
+            options = c['options']
+    return c['exporter'].export_string(doc, options)
+
+
+_CTX = {}
+ROUTES = '0122112022101221'
+
+
+def export_context(doc):
+    """the long-lived Exporter (and ExportOptions) object that serves a document for the whole recorded session."""
+    import kernpy as kp
+    c = _CTX.get(id(doc))
+    if c is None or c['doc'] is not doc:
+        if len(_CTX) > 64:
+            _CTX.clear()
+        c = _CTX[id(doc)] = {'doc': doc, 'exporter': kp.Exporter(), 'options': None, 'n': 0}
+        try:
+            c['exporter'].get_spine_types(doc)          # its first use is a query (internally an export of the headers only)
+        except Exception:  # noqa
+            pass
+    return c
 
 
 def run_quiet(f, *a, **k):
@@ -241,36 +280,48 @@ def record_call(doc, call):
             except Exception as ex:  # noqa
                 ev['res'] = {'ok': False, 'grid': [], 'exc': type(ex).__name__}
         elif op == 'listing':
-            ev['res'] = [[t.category.name, cps(t.encoding)] for t in doc.get_all_tokens(filter_by_categories=cats())]
+            ev['res'] = [[t.category.name, cps(t.encoding)] for t in _keep(doc.get_all_tokens(filter_by_categories=cats()))]
         elif op == 'unique':
-            ev['res'] = [[t.category.name, cps(t.encoding)] for t in doc.get_unique_tokens(filter_by_categories=cats())]
+            ev['res'] = [[t.category.name, cps(t.encoding)] for t in _keep(doc.get_unique_tokens(filter_by_categories=cats()))]
         elif op == 'encodings':
-            ev['res'] = [cps(t) for t in doc.get_all_tokens_encodings(filter_by_categories=cats())]
+            ev['res'] = [cps(t) for t in _keep(doc.get_all_tokens_encodings(filter_by_categories=cats()))]
         elif op == 'uencodings':
-            ev['res'] = [cps(t) for t in doc.get_unique_token_encodings(filter_by_categories=cats())]
+            ev['res'] = [cps(t) for t in _keep(doc.get_unique_token_encodings(filter_by_categories=cats()))]
         elif op == 'freq':
-            fr = doc.frequencies(token_categories=cats())
+            fr = _keep(doc.frequencies(token_categories=cats()))
             ev['res'] = [[cps(k), v['occurrences'], v['category']] for k, v in fr.items()]
         elif op == 'meta':
-            ev['res'] = [cps(t) for t in (doc.get_metacomments(KeyComment=uncps(a['key'])) if a['haskey'] else doc.get_metacomments())]
+            ev['res'] = [cps(t) for t in _keep(doc.get_metacomments(KeyComment=uncps(a['key'])) if a['haskey'] else doc.get_metacomments())]
         elif op == 'mono':
             ev['res'] = bool(kp.is_monophonic(doc))
         elif op == 'spine_types':
-            r = kp.spine_types(doc) if a['alltypes'] and not form % 2 else kp.spine_types(
-                doc, headers=None if a['alltypes'] else [uncps(t) for t in a['types']])
-            ev['res'] = [cps(t) for t in r]
+            if form % 3 == 2:                        # through the document's long-lived Exporter object
+                r = export_context(doc)['exporter'].get_spine_types(doc, None if a['alltypes'] else [uncps(t) for t in a['types']])
+            else:
+                r = kp.spine_types(doc) if a['alltypes'] and not form % 2 else kp.spine_types(
+                    doc, headers=None if a['alltypes'] else [uncps(t) for t in a['types']])
+            ev['res'] = [cps(t) for t in _keep(r)]
         elif op == 'spine_ids':
-            ev['res'] = list(doc.get_spine_ids())
+            ev['res'] = list(_keep(doc.get_spine_ids()))
         elif op == 'iter':
             try:
                 ev['res'] = {'ok': True, 'v': [int(x) for x in doc]}
             except Exception as ex:  # noqa
                 ev['res'] = {'ok': False, 'v': []}
         elif op == 'iterpairs':
+            # OVERLAPPING iterations over the same document: two iterators advanced alternately, a nested loop, an iteration
+            # that is resumed after another complete iteration ran in between
             try:
-                ev['res'] = {'ok': True, 'v': [[int(x), int(y)] for x, y in zip(doc, doc)]}
+                single = [int(x) for x in doc]
+                pairs = [[int(x), int(y)] for x, y in zip(doc, doc)]
+                nested = [[int(x), int(y)] for x in doc for y in doc] if len(single) <= 14 else [[int(x), int(y)] for x in doc for y in doc][:196]
+                it = iter(doc)
+                first = [int(x) for x in [next(it)]] if single else []
+                mid = [int(x) for x in doc]
+                rest = [int(x) for x in it]
+                ev['res'] = {'ok': True, 'v': pairs, 'single': single, 'nested': nested, 'first': first, 'mid': mid, 'rest': rest}
             except Exception as ex:  # noqa
-                ev['res'] = {'ok': False, 'v': []}
+                ev['res'] = {'ok': False, 'v': [], 'single': [], 'nested': [], 'first': [], 'mid': [], 'rest': []}
         elif op == 'graph':
             ev['res'] = graph_of(doc)
         elif op == 'mcount':
@@ -315,8 +366,24 @@ def record_call(doc, call):
         raise
     except Exception as ex:  # noqa  an unexpected exception of the implementation is a result, not a harness failure
         ev['res'] = 'EXC:' + type(ex).__name__
+    for x in _returned:
+        # a returned collection belongs to the caller: it is emptied after it was recorded (later calls must not notice)
+        try:
+            x.clear()
+        except Exception:  # noqa
+            pass
+    _returned.clear()
     ev['snap'] = snapshot(doc)
     return ev
+
+
+_returned = []
+
+
+def _keep(x):
+    if isinstance(x, (list, dict, set)):
+        _returned.append(x)
+    return x
 
 
 def record_reexport(doc, ref, enc='kern'):
